@@ -236,7 +236,7 @@ func (m *Manager) CreateAllocation( // nolint: cyclop
 	m.log.Debugf("Listening on relay address: %s", alloc.RelayAddr)
 
 	alloc.lifetimeTimer = time.AfterFunc(lifetime, func() {
-		m.DeleteAllocation(alloc.fiveTuple)
+		m.deleteAllocation(alloc.fiveTuple, alloc)
 	})
 
 	m.lock.Lock()
@@ -262,10 +262,23 @@ func (m *Manager) CreateAllocation( // nolint: cyclop
 
 // DeleteAllocation removes an allocation.
 func (m *Manager) DeleteAllocation(fiveTuple *FiveTuple) {
+	m.deleteAllocation(fiveTuple, nil)
+}
+
+// deleteAllocation removes the allocation registered for the 5-tuple. When
+// only is set it does so only if that allocation is still the registered one:
+// an allocation's own goroutines (lifetime timer, relay socket readers) may
+// run after it was deleted, when the 5-tuple belongs to a newer allocation.
+func (m *Manager) deleteAllocation(fiveTuple *FiveTuple, only *Allocation) {
 	fingerprint := fiveTuple.Fingerprint()
 
 	m.lock.Lock()
 	allocation := m.allocations[fingerprint]
+	if only != nil && allocation != only {
+		m.lock.Unlock()
+
+		return
+	}
 	delete(m.allocations, fingerprint)
 	m.lock.Unlock()
 
